@@ -243,6 +243,9 @@ func (w *World) Discard() {
 	}
 }
 
+// NowMS is the fake clock of the running lifetime (ms since the bubble's epoch, 2000-01-01T00:00:00Z).
+func (w *World) NowMS() int64 { return w.lastNow }
+
 // LastCrashed reports whether the most recent lifetime ended by a planned crash.
 func (w *World) LastCrashed() bool { return w.lastEndCrashed }
 
